@@ -30,10 +30,17 @@ class Ctx:
     def sub(self, modname: str, prop: str):
         """Obligations of another property's rule module (shared rules), computed once per run."""
         if modname not in self._sub:
-            mod = importlib.import_module(f'sa.rules.{modname}')
-            c = Collector(prop)
-            mod.run(self, c)
-            self._sub[modname] = c
+            running = self.__dict__.setdefault('_sub_running', [])
+            if modname in running:
+                raise RuntimeError(f'cyclic shared rules: {" -> ".join(running + [modname])}')
+            running.append(modname)
+            try:
+                mod = importlib.import_module(f'sa.rules.{modname}')
+                c = Collector(prop)
+                mod.run(self, c)
+                self._sub[modname] = c
+            finally:
+                running.pop()
         return self._sub[modname]
 
     @property
@@ -59,6 +66,7 @@ def run_property(prop: str, repo: str, tier: str, only=None, evidence_dir=None, 
     try:
         ctx = Ctx(repo, tier)
         ctx.idx  # parse the package (syntax errors -> analysis error)
+        ctx.__dict__.setdefault('_sub_running', []).append(prop.lower())
         mod.run(ctx, col)
     except Exception as e:
         tb = traceback.format_exc()
